@@ -11,6 +11,7 @@ import (
 	"sort"
 	"strings"
 
+	"github.com/a14e/gogreement/src/simrt"
 	"verifsim/core"
 	"verifsim/driver"
 	"verifsim/sched"
@@ -31,6 +32,31 @@ type ExecSpec struct {
 	Sched  sched.Config `json:"sched"`
 	Tape   []uint32     `json:"decisions"` // recorded during the original execution
 	Repeat int          `json:"repeat"`    // identical re-executions (run-to-run determinism)
+	// Procs is the processor count the code under test sees (runtime.GOMAXPROCS) during this
+	// execution (through the simrt.Procs seam); 0 = the worker's own setting (1). "Parallel on 16 cores vs sequential" is
+	// part of C11's quantifier: the outcome must not depend on it. Which task runs is still the
+	// seeded scheduler's decision alone (the determinism self-test runs the workers at 1, 4, 16).
+	Procs int `json:"procs,omitempty"`
+}
+
+// procsCycle assigns a processor count to the k-th perturbed execution of a world without
+// consuming tape (so worlds and schedules are the same as before this dimension existed).
+var procsCycle = [...]int{16, 2, 0, 3, 16, 0, 4, 0}
+
+// withProcs runs f with the processor count of spec visible to the code under test.
+func withProcs(spec *ExecSpec, agg *core.Agg, f func()) {
+	if spec.Procs <= 0 {
+		f()
+		return
+	}
+	// a seam, not the real thing: the instrumented copy reads runtime.GOMAXPROCS / NumCPU through
+	// simrt.Procs; the worker's real setting (one thread for the hand-offs) is not touched
+	simrt.SimProcs = spec.Procs
+	defer func() { simrt.SimProcs = 0 }()
+	if agg != nil {
+		agg.Inc(fmt.Sprintf("env.gomaxprocs_%d", spec.Procs))
+	}
+	f()
 }
 
 type Case struct {
@@ -149,6 +175,7 @@ func Execute(c *Case, chooser func(i int) sched.Chooser, record func(i int, mark
 			reps = 1
 		}
 		var first *execResult
+		ownGoroutines := false
 		for r := 0; r < reps; r++ {
 			var ch sched.Chooser
 			if r == 0 {
@@ -168,7 +195,12 @@ func Execute(c *Case, chooser func(i int) sched.Chooser, record func(i int, mark
 			if spec.Ex.StallFile != "" {
 				agg.Inc("fault.stalled_read_armed")
 			}
-			res, err := runExec(c.World, l, spec, ch)
+			var res *execResult
+			fs0 := simrt.ForeignSeen()
+			withProcs(spec, agg, func() { res, err = runExec(c.World, l, spec, ch) })
+			if simrt.ForeignSeen() != fs0 {
+				ownGoroutines = true // the code under test started goroutines of its own in this execution
+			}
 			if r == 0 {
 				record(i, false)
 			}
@@ -217,6 +249,13 @@ func Execute(c *Case, chooser func(i int) sched.Chooser, record func(i int, mark
 						return &failure{"run-to-run-nondeterminism",
 							fmt.Sprintf("execution %q repeated with identical scheduler decisions gave a different outcome for package %s (repetition %d):\n%s", spec.Label, p, r, firstDiff(a, b))}, log.Sum(), nil
 					}
+				}
+				if ownGoroutines {
+					// goroutines of the code under test are real goroutines: how far the parent gets
+					// before they end is not the scheduler's decision, so the *path* may differ between
+					// repetitions although every outcome is equal - inconclusive, not a violation
+					agg.Inc("inconclusive.path_differs_own_goroutines")
+					continue
 				}
 				return &failure{"run-to-run-nondeterminism", fmt.Sprintf("execution %q repeated with identical decisions took a different path (event log differs, outcomes equal)", spec.Label)}, log.Sum(), nil
 			}
@@ -376,6 +415,7 @@ func (e Engine) run(t *core.Tape, opt core.RunOpt, agg *core.Agg) (*Case, *failu
 		if j == 0 {
 			spec.Repeat = rep // one preempting schedule is also repeated identically
 		}
+		spec.Procs = procsCycle[j%len(procsCycle)]
 		spec.Label = fmt.Sprintf("%s/%s/%d-roots#%d", drv, strategyName(sc.Strategy), len(roots), j+1)
 		c.Execs = append(c.Execs, spec)
 	}
